@@ -367,9 +367,46 @@ fn sc_families(ns: Vec<usize>) -> impl Fn(&mut Ctx) + Sync {
     }
 }
 
+/// an asset-carrying UTxO short of ADA plus pure-ADA UTxOs, one of them swept in 1000-lovelace
+/// steps across the point where the batch becomes affordable (the fee of an added input is a few
+/// thousand lovelace with mainnet parameters, so a window that narrow decides the outcome)
+fn sc_sweep(steps: usize) -> impl Fn(&mut Ctx) + Sync {
+    move |ctx: &mut Ctx| {
+        let ks = kinds();
+        let pi = ctx.choose_free(N_PARAMS);
+        let short = [12usize, 5, 8, 9][ctx.choose_free(4)];
+        let extra = ctx.choose_free(3);
+        let k = ctx.choose_free(steps);
+        let (p, pname) = params(pi);
+        let mut specs = vec![ks[short].clone()];
+        specs[0].coin = 1_000_000;
+        specs.push(Spec { owner: Owner::Key(7, 0), coin: 150_000 + 1000 * k as u64, assets: vec![] });
+        for e in 0..extra {
+            specs.push(Spec { owner: Owner::Key(8 + e, 1), coin: 160_000 + 5_000 * e as u64, assets: vec![] });
+        }
+        let tgt = target(0);
+        let mut utxos = TransactionUnspentOutputs::new();
+        for (j, s) in specs.iter().enumerate() {
+            utxos.add(&utxo_of(j, s));
+        }
+        let what = || format!("sweep: kind {} with 1 ADA + pure ADA {} + {} small extras ; {}", short, 150_000 + 1000 * k, extra, pname);
+        ctx.set_sample(|| what());
+        ctx.observe(&(pi, short, extra, k));
+        let cfg = p.config();
+        let res = guard(|| create_send_all(&tgt, &utxos, &cfg));
+        if let Ok(Ok(_)) = &res {
+            ctx.hit("sweep:affordable");
+        } else {
+            ctx.hit("sweep:refused");
+        }
+        judge(ctx, &specs, &tgt, &p, res, &what);
+    }
+}
+
 pub fn scenario(name: &str, tier: Tier) -> Option<BoxedScenario> {
     match name {
-        "sequences" => Some(Box::new(sc_sequences(if tier.thorough() { 4 } else { 3 }))),
+        "sequences" => Some(Box::new(sc_sequences(if tier.thorough() { 5 } else { 3 }))),
+        "sweep" => Some(Box::new(sc_sweep(if tier.thorough() { 3000 } else { 1500 }))),
         "families" => {
             let mut ns = vec![1usize, 2, 3, 4, 22, 23, 24, 25, 26, 60];
             if tier.thorough() {
@@ -383,16 +420,16 @@ pub fn scenario(name: &str, tier: Tier) -> Option<BoxedScenario> {
 
 pub fn run(tier: Tier, seed: u64) -> i32 {
     let mut rep = Report::new(P, tier, seed);
-    let n = if tier.thorough() { 4 } else { 3 };
-    rep.rule = format!("sequences: every sequence of <= {} UTxOs over 14 kinds (pure ADA 0.9 / 1.2 / 50 / 300 / 4000 / 2^40 lovelace-scale, assets whose summed quantity crosses 255|256, 2^32 and near-2^63 quantities, 0 / 1 / 32-byte names, 1..3 policies, asset-rich with little ADA, two Byron owners, one key behind enterprise / base / pointer addresses) x 8 parameter configurations (mainnet; max_tx_size 420; max_value_size 90; zero fee; coins_per_byte 1; 300/60; fee 1000/2000000; coins_per_byte 43100 with max_value_size 150) x 3 target addresses (base, Byron, script enterprise) x 2 hash-container seeds. families: 6 families (one key; distinct keys; distinct names under one policy; distinct policies; one shared asset; Byron/key mix) x n in the listed counts x 8 configurations x 2 seeds. Oracle on the re-parsed transactions: inputs are supplied UTxOs, each spent exactly once over the batch, every output to the target, inputs == outputs + fee in lovelace and every asset, fee >= a*|signed tx| + b with one key witness per distinct payment key and one bootstrap witness per Byron address, |signed tx| <= max_tx_size, |value| <= max_value_size, coin >= coins_per_byte*(160+|output|), no zero quantities.", n);
+    let n = if tier.thorough() { 5 } else { 3 };
+    rep.rule = format!("sequences: every sequence of <= {} UTxOs over 14 kinds (pure ADA 0.9 / 1.2 / 50 / 300 / 4000 / 2^40 lovelace-scale, assets whose summed quantity crosses 255|256, 2^32 and near-2^63 quantities, 0 / 1 / 32-byte names, 1..3 policies, asset-rich with little ADA, two Byron owners, one key behind enterprise / base / pointer addresses) x 8 parameter configurations (mainnet; max_tx_size 420; max_value_size 90; zero fee; coins_per_byte 1; 300/60; fee 1000/2000000; coins_per_byte 43100 with max_value_size 150) x 3 target addresses (base, Byron, script enterprise) x 2 hash-container seeds. families: 6 families (one key; distinct keys; distinct names under one policy; distinct policies; one shared asset; Byron/key mix) x n in the listed counts x 8 configurations x 2 seeds. sweep: an asset-carrying UTxO holding 1 ADA (4 kinds) + one pure-ADA UTxO swept from 0.15 ADA in 1000-lovelace steps + 0..2 small pure-ADA UTxOs x 8 configurations. Oracle on the re-parsed transactions: inputs are supplied UTxOs, each spent exactly once over the batch, every output to the target, inputs == outputs + fee in lovelace and every asset, fee >= a*|signed tx| + b with one key witness per distinct payment key and one bootstrap witness per Byron address, |signed tx| <= max_tx_size, |value| <= max_value_size, coin >= coins_per_byte*(160+|output|), no zero quantities.", n);
     rep.assume("a refusal (Err) is not judged: the property is conditional on success");
     rep.assume("the signed size is computed by the harness (ledger::signed_bytes) from the emitted body plus real-size witnesses, not from the mock witnesses the library attaches");
     rep.trusted_base = vec!["harness/src/ledger.rs (parse_tx, min_fee, signed_bytes)".into(), "notes/ledger_rules.md §1-§3".into()];
-    rep.required_hits = vec!["send-all-succeeds", "send-all-refuses", "txs:1", "txs:>=2", "outputs:>=2", "fee-sufficient", "byron-and-key-owners-in-one-tx", "inputs:>=24", "key-witnesses:>=24", "assets-per-policy:>=24", "policies:>=24", "all-spent-once-checked"];
+    rep.required_hits = vec!["send-all-succeeds", "send-all-refuses", "txs:1", "txs:>=2", "outputs:>=2", "fee-sufficient", "byron-and-key-owners-in-one-tx", "inputs:>=24", "key-witnesses:>=24", "assets-per-policy:>=24", "policies:>=24", "all-spent-once-checked", "sweep:affordable", "sweep:refused"];
     if tier.thorough() {
         rep.required_hits.push("inputs:>=256");
     }
-    for (name, desc) in [("sequences", "full product"), ("families", "full product")] {
+    for (name, desc) in [("sequences", "full product"), ("families", "full product"), ("sweep", "full product; swept coin in 1000-lovelace steps")] {
         let f = scenario(name, tier).unwrap();
         let st = explore(name, &*f, &Opts::new(seed));
         rep.add(name, desc, st);
